@@ -664,7 +664,7 @@ func (w *World) calleeEffect(caller *ssa.Function, c *ssa.CallCommon, out *modIn
 // implementations are assumed not to write package-visible memory.
 func (w *World) trustedIface(t types.Type) bool {
 	switch typeKey(t) {
-	case "Valuer", "CallValuer", "ZoneValuer", "FieldMapper", "TypeMapper", "CallTypeMapper", "io.Reader", "io.RuneScanner", "io.RuneReader", "error", "fmt.Stringer", "sort.Interface":
+	case "Value", "Valuer", "CallValuer", "ZoneValuer", "FieldMapper", "TypeMapper", "CallTypeMapper", "io.Reader", "io.RuneScanner", "io.RuneReader", "error", "fmt.Stringer", "sort.Interface":
 		return true
 	}
 	return false
@@ -761,13 +761,12 @@ func (w *World) invokeModsByType(c *ssa.CallCommon) (map[int]map[string]bool, bo
 }
 
 // modSetOf: heaps a call to callee may write, given the call's arguments.
-func (w *World) modSetOf(callee *ssa.Function, c *ssa.CallCommon) (map[string]bool, bool) {
+func (w *World) modSetOf(callee *ssa.Function, c *ssa.CallCommon, caller *ssa.Function) (map[string]bool, bool) {
 	seen := map[*ssa.Function]bool{}
 	out := &modInfo{names: map[string]bool{}, dynParams: map[int]bool{}}
 	cm := w.modInfoOf(callee, seen)
 	w.merge(out, cm)
 	if c != nil {
-		caller := c.Value.Parent()
 		for i := range cm.dynParams {
 			if i < len(c.Args) {
 				if caller == nil {
@@ -851,4 +850,68 @@ func (w *World) canInline(fn *ssa.Function) bool {
 		}
 	}
 	return n <= 250 && !w.inCycle(fn)
+}
+
+// fnTypeContract: the contract declared for function values of this signature, if any.
+func (w *World) fnTypeContract(t types.Type) *FuncContract {
+	sig, ok := t.Underlying().(*types.Signature)
+	if !ok {
+		return nil
+	}
+	key := sigKey(sig)
+	for _, fc := range w.contracts.Funcs {
+		if fc.FnType != "" && fc.FnType == key {
+			return fc
+		}
+	}
+	return nil
+}
+
+// fnValuesOfType: package functions of the signature that are used as values.
+func (w *World) fnValuesOfType(key string) []*ssa.Function {
+	var out []*ssa.Function
+	used := map[*ssa.Function]bool{}
+	for _, fn := range w.allFuncs {
+		for _, b := range fn.Blocks {
+			for _, ins := range b.Instrs {
+				if mc, ok := ins.(*ssa.MakeClosure); ok {
+					used[mc.Fn.(*ssa.Function)] = true
+				}
+				for _, op := range ins.Operands(nil) {
+					if f, ok := (*op).(*ssa.Function); ok {
+						if ci, isCall := ins.(ssa.CallInstruction); isCall && ci.Common().Value == f {
+							continue
+						}
+						used[f] = true
+					}
+				}
+			}
+		}
+	}
+	for _, fn := range w.allFuncs {
+		if used[fn] && sigKey(fn.Signature) == key && len(fn.Blocks) > 0 {
+			out = append(out, fn)
+		}
+	}
+	return out
+}
+
+// sigKey: "func(T1, T2) (R1, R2)" without parameter names.
+func sigKey(sig *types.Signature) string {
+	var ps, rs []string
+	for i := 0; i < sig.Params().Len(); i++ {
+		ps = append(ps, typeKey(sig.Params().At(i).Type()))
+	}
+	for i := 0; i < sig.Results().Len(); i++ {
+		rs = append(rs, typeKey(sig.Results().At(i).Type()))
+	}
+	out := "func(" + strings.Join(ps, ", ") + ")"
+	switch len(rs) {
+	case 0:
+	case 1:
+		out += " " + rs[0]
+	default:
+		out += " (" + strings.Join(rs, ", ") + ")"
+	}
+	return out
 }
